@@ -16,9 +16,12 @@
 package main
 
 import (
+	"encoding/json"
 	"fmt"
 	"hash/fnv"
 	"math"
+	"os"
+	"path/filepath"
 	"runtime"
 	"sort"
 	"strings"
@@ -35,6 +38,7 @@ import (
 	"github.com/0chain/common/core/util"
 
 	"verif/lib/ev"
+	"verif/lib/vmap"
 )
 
 type c39Pool map[string]bool
@@ -47,6 +51,8 @@ type c39Layout struct {
 	Prev   int   // bit mask of previous-set members
 	Limit  int
 	X      float64
+	Seeds  int  // seeds 0..Seeds-1 are evaluated
+	NoTie  bool // skip the seed-only tie-break clause (large tie groups: 64 seeds would not decide it)
 }
 
 func c39ID(i int) string { return string(rune('a' + i)) }
@@ -70,19 +76,15 @@ func (l c39Layout) String() string {
 	return fmt.Sprintf("candidates[%s] (*=previous member) limit=%d percent=%.2f", strings.Join(c, " "), l.Limit, l.X)
 }
 
-// c39Run calls the real reduce; reverse controls the order in which the Go map is filled.
-func c39Run(l c39Layout, seed int64, reverse bool) (ret int, sel int, err any) {
+// c39Run calls the real reduce (the order in which it iterates the candidate map is vmap.Choice).
+func c39Run(l c39Layout, seed int64) (ret int, sel int, err any) {
 	defer func() {
 		if p := recover(); p != nil {
 			err = p
 		}
 	}()
 	sns := minersc.NewSimpleNodes()
-	for k := 0; k < l.N; k++ {
-		i := k
-		if reverse {
-			i = l.N - 1 - k
-		}
+	for i := 0; i < l.N; i++ {
 		sns[c39ID(i)] = c39SN(c39ID(i), l.Stakes[i])
 	}
 	var pool minersc.Pooler
@@ -238,7 +240,7 @@ func c39() {
 	run.Bounds["limit"] = "0..n+1"
 	run.Bounds["percent"] = "{0,.25,.5,.75,1} ({0,.5,1} for 6 candidates)"
 	run.Bounds["seeds"] = "0..63"
-	run.Rule = "complete product: candidates 1..N x stake vectors x previous-set subsets x limits x percentages x seeds, for seeds 0..7 each call is made twice with the Go map filled in opposite orders; distinct = distinct (layout, set of selections over the seeds)"
+	run.Rule = "complete product: candidates 1..N x stake vectors x previous-set subsets x limits x percentages x seeds, seeds 0..7 of every layout re-evaluated under every map iteration order of the seam; distinct = distinct (layout, set of selections over the seeds)"
 
 	t0 := time.Now()
 	var layouts []c39Layout
@@ -261,13 +263,57 @@ func c39() {
 			for prev := 0; prev < 1<<n; prev++ {
 				for limit := 0; limit <= n+1; limit++ {
 					for _, xp := range nxs {
-						layouts = append(layouts, c39Layout{n, st, prev, limit, xp})
+						layouts = append(layouts, c39Layout{N: n, Stakes: st, Prev: prev, Limit: limit, X: xp, Seeds: nSeeds})
+					}
+				}
+			}
+		}
+	}
+	famA := len(layouts)
+	// family B: more candidates than slots with tie groups straddling the cut-off among non-previous
+	// candidates: 6 candidates (thorough: also 7 and 8), every stake vector over {0,1,2}, previous set in
+	// {none, lowest id, highest id, two middle ids}, limit 3..5, percent {0,.5}, seeds 0..15
+	for n := 6; n <= run.Pick(6, 8); n++ {
+		total := 1
+		for i := 0; i < n; i++ {
+			total *= 3
+		}
+		for sv := 0; sv < total; sv++ {
+			st := make([]int, n)
+			x := sv
+			for i := 0; i < n; i++ {
+				st[i] = x % 3
+				x /= 3
+			}
+			for _, prev := range []int{0, 1, 1 << (n - 1), 1<<(n/2) | 1<<(n/2-1)} {
+				for limit := 3; limit <= 5; limit++ {
+					for _, xp := range []float64{0, 0.5} {
+						layouts = append(layouts, c39Layout{N: n, Stakes: st, Prev: prev, Limit: limit, X: xp, Seeds: 16, NoTie: true})
 					}
 				}
 			}
 		}
 	}
 	run.Extra["layouts"] = len(layouts)
+	run.Extra["layouts_family_a"] = famA
+	run.Extra["layouts_family_b"] = len(layouts) - famA
+	run.Bounds["family_b"] = fmt.Sprintf("6..%d candidates, every stake vector over {0,1,2}, previous set in {none, lowest id, highest id, two middle ids}, limit 3..5, percent {0,.5}, seeds 0..15 (validity and function-of-inputs clauses)", run.Pick(6, 8))
+	run.Bounds["map_iteration_orders"] = "every order the map seam can produce for the candidate map (n! for n<=3, the 2n rotations of the sorted and the reversed order above), for seeds 0..7 of every layout"
+
+	// the map-iteration seam must reach the `range sns` site of reduce, otherwise the
+	// function-of-inputs clause could not be decided
+	if site := c39SeamSite(); site == "" {
+		ev.Fatal("the maporder seam did not rewrite the `range sns` loop of SimpleNodes.reduce (see .work/seams*/maporder.sites.json)")
+	} else {
+		run.Extra["maporder_seam_site"] = site
+	}
+	vmap.Choice = 0
+	calls0 := vmap.Calls
+	c39Run(c39Layout{N: 3, Stakes: []int{0, 0, 0}, Limit: 2}, 0)
+	if vmap.Calls == calls0 {
+		ev.Fatal("reduce did not go through the map-iteration seam")
+	}
+	base := make([][c39OrderSeeds]int16, len(layouts))
 
 	workers := runtime.NumCPU()
 	if workers > 16 {
@@ -291,11 +337,29 @@ func c39() {
 		go func(w int) {
 			defer wg.Done()
 			for li := w; li < len(layouts); li += workers {
-				c39CheckLayout(run, li, layouts[li], nSeeds, report)
+				c39CheckLayout(run, li, layouts[li], &base[li], report)
 			}
 		}(w)
 	}
 	wg.Wait()
+	// the same inputs under every other map iteration order (the order is a process-wide setting of
+	// the seam, so the orders are visited one after the other, the layouts in parallel)
+	for c := 1; c < vmap.NumOrders(run.Pick(6, 8)); c++ {
+		vmap.Choice = c
+		for w := 0; w < workers; w++ {
+			wg.Add(1)
+			go func(w int) {
+				defer wg.Done()
+				for li := w; li < len(layouts); li += workers {
+					if c < vmap.NumOrders(layouts[li].N) {
+						c39CheckOrder(run, li, layouts[li], c, &base[li], report)
+					}
+				}
+			}(w)
+		}
+		wg.Wait()
+	}
+	vmap.Choice = 0
 	// deterministic reporting: smallest layout index first per key
 	sort.SliceStable(viols, func(i, j int) bool { return viols[i].order < viols[j].order })
 	for _, v := range viols {
@@ -315,7 +379,51 @@ func c39() {
 	run.Finish()
 }
 
-func c39CheckLayout(run *ev.Run, li int, l c39Layout, nSeeds int, report func(int, string, string, any)) {
+const c39OrderSeeds = 8
+
+// c39SeamSite returns the maporder-seam site record of the candidate loop in reduce ("" if absent).
+func c39SeamSite() string {
+	dir := "seams"
+	if sfx := os.Getenv("VERIF_BIN_SUFFIX"); sfx != "" {
+		dir = "seams." + sfx
+	}
+	data, err := os.ReadFile(filepath.Join(ev.Root(), ".work", dir, "maporder.sites.json"))
+	if err != nil {
+		return ""
+	}
+	var sites map[string][]string
+	if json.Unmarshal(data, &sites) != nil {
+		return ""
+	}
+	// the first `range sns` in models.go is the loop that splits the candidates inside reduce
+	for _, s := range sites["smartcontract/minersc"] {
+		if strings.HasPrefix(s, "models.go:") && strings.HasSuffix(s, "range sns") {
+			return s
+		}
+	}
+	return ""
+}
+
+// c39CheckOrder re-evaluates seeds 0..7 of a layout under map iteration order c.
+func c39CheckOrder(run *ev.Run, li int, l c39Layout, c int, base *[c39OrderSeeds]int16, report func(int, string, string, any)) {
+	for seed := int64(0); seed < c39OrderSeeds && seed < int64(l.Seeds); seed++ {
+		_, sel, perr := c39Run(l, seed)
+		run.Add(0, 1, 1)
+		if perr != nil {
+			report(li, "C39:reduce:panic", fmt.Sprintf("%v seed %d map order %d: panic %v", l, seed, c, perr), nil)
+			return
+		}
+		if int16(sel) != base[seed] {
+			report(li, "C39:reduce:result-depends-on-map-iteration-order",
+				fmt.Sprintf("%v seed %d: selected %s when the candidate map is iterated in sorted order and %s under iteration order %d of the seam (identical inputs)", l, seed, maskNames(l, int(base[seed])), maskNames(l, sel), c),
+				map[string]any{"stakes_by_id": l.Stakes, "previous_mask": l.Prev, "limit": l.Limit, "percent": l.X, "seed": seed, "map_order_choice": c})
+			return
+		}
+	}
+}
+
+func c39CheckLayout(run *ev.Run, li int, l c39Layout, base *[c39OrderSeeds]int16, report func(int, string, string, any)) {
+	nSeeds := l.Seeds
 	m := l.Limit
 	if l.N < m {
 		m = l.N
@@ -344,19 +452,14 @@ func c39CheckLayout(run *ev.Run, li int, l c39Layout, nSeeds int, report func(in
 	ever, never := 0, 0 // selected under some seed / rejected under some seed
 	outcomes := map[int]bool{}
 	for seed := int64(0); seed < int64(nSeeds); seed++ {
-		ret, sel, perr := c39Run(l, seed, false)
-		ret2, sel2, perr2 := ret, sel, perr
-		if seed < 8 { // identical inputs, Go map filled in the opposite order
-			ret2, sel2, perr2 = c39Run(l, seed, true)
-			run.Add(0, 0, 1)
-		}
+		ret, sel, perr := c39Run(l, seed)
 		run.Add(0, 1, 1)
-		if perr != nil || perr2 != nil {
-			report(li, "C39:reduce:panic", fmt.Sprintf("%v seed %d: panic %v %v", l, seed, perr, perr2), replay(seed))
+		if perr != nil {
+			report(li, "C39:reduce:panic", fmt.Sprintf("%v seed %d: panic %v", l, seed, perr), replay(seed))
 			return
 		}
-		if sel != sel2 || ret != ret2 {
-			report(li, "C39:reduce:not-deterministic", fmt.Sprintf("%v seed %d: %s (returned %d) and %s (returned %d) for identical inputs", l, seed, maskNames(l, sel), ret, maskNames(l, sel2), ret2), replay(seed))
+		if seed < c39OrderSeeds {
+			base[seed] = int16(sel)
 		}
 		if sel < 0 {
 			report(li, "C39:reduce:foreign-node-in-result", fmt.Sprintf("%v seed %d: result holds a node that is not a candidate", l, seed), replay(seed))
@@ -402,7 +505,7 @@ func c39CheckLayout(run *ev.Run, li int, l c39Layout, nSeeds int, report func(in
 	if li%9973 == 0 {
 		run.Sample(map[string]any{"layout": l.String(), "selections_over_seeds": outs})
 	}
-	for i := 0; i < l.N; i++ {
+	for i := 0; i < l.N && !l.NoTie; i++ {
 		if free&(1<<i) == 0 {
 			continue
 		}
@@ -479,7 +582,7 @@ func c39Callers(run *ev.Run) {
 				}
 				for limit := 1; limit <= n+1; limit++ {
 					for _, xp := range []float64{0.25, 0.5, 1} {
-						l := c39Layout{n, st, prev, limit, xp}
+						l := c39Layout{N: n, Stakes: st, Prev: prev, Limit: limit, X: xp}
 						m := limit
 						if n < m {
 							m = n
